@@ -69,6 +69,11 @@ func (repo *BlockRepository) Load(ctx context.Context) error {
 	repo.mutex.Lock()
 	defer repo.mutex.Unlock()
 
+	return repo.load(ctx)
+}
+
+// This function is internal and doesn't lock the mutex so it can be internally without double locking.
+func (repo *BlockRepository) load(ctx context.Context) error {
 	// Clear
 	repo.height = -1
 	repo.heights = make(map[bitcoin.Hash32]int)
@@ -373,12 +378,25 @@ func (repo *BlockRepository) Revert(ctx context.Context, height int) error {
 	fullFileEndHeight := (((repo.height) / blocksPerKey) * blocksPerKey) - 1
 	revertedHeight := fullFileEndHeight
 
+	// When the revert fails after files were removed the height and cache still describe the chain
+	// before the revert, which those files no longer hold. The next save would write the latest
+	// file again, above the removed ones, and reading the removed heights fails, so the revert
+	// could never be repeated. Go back to the chain that is in the files instead.
+	filesRemoved := false
+	reverted := false
+	defer func() {
+		if filesRemoved && !reverted {
+			repo.load(ctx)
+		}
+	}()
+
 	// Remove any files that need completely removed.
 	for ; revertedHeight >= height; revertedHeight -= blocksPerKey {
 		path := repo.buildPath(revertedHeight + blocksPerKey)
 		if err := repo.store.Remove(ctx, path); err != nil {
 			return errors.Wrap(err, fmt.Sprintf("Failed to remove block file for revert : %s", path))
 		}
+		filesRemoved = true
 	}
 
 	// Partially revert last remaining file if necessary. Otherwise just load it into cache.
@@ -411,6 +429,7 @@ func (repo *BlockRepository) Revert(ctx context.Context, height int) error {
 	}
 	repo.lastHeaders = lastHeaders
 	repo.height = height
+	reverted = true
 
 	// Revert heights map
 	for _, hash := range removedHashes {
